@@ -303,6 +303,50 @@ theorem inplace_ctor_mutates :
     (ctorH true [⟨[86400], true⟩] .seconds .utc (.ref 0) none).2 = (ctorH false [⟨[86400], true⟩] .seconds .utc (.ref 0) none).2 := by
   decide +kernel
 
+/-! #### The epoch constructors `Time(val, val2, fmt=…)`: fresh storage, no aliasing
+
+`ctorTimeH aliases split`: the constructor on the heap, for any per-element `_to_jds` arithmetic `split`.  A `_to_jds` that
+returned its arguments un-copied would make the caller's buffers the object's `jd1`/`jd2` (and `TimeBase.__new__` would freeze
+them); the `return` class of the regenerated table says whether the tree under test has one. -/
+
+/-- regenerated table: no `_to_jds` / `to_jds` of `_time.py` returns a parameter or a view of one -/
+theorem no_aliasing_constructor : srcAliases = false := by decide +kernel
+
+/-- **`ops_pure` for the epoch constructors**, as the tree under test is written: every buffer that existed before
+`Time(val, val2)` has the same contents and flag afterwards, and the new object is independent of all of them — whatever the
+caller later writes into any of its arrays, the epoch reads the same -/
+theorem epoch_ctor_pure (split : Rat → Rat → JD) (h : Heap) (s : Scale) (val : Part) (val2 : Option Part) :
+    (∀ i, i < h.length → (ctorTimeH srcAliases split h s val val2).1[i]? = h[i]?) ∧
+    (∀ o, (ctorTimeH srcAliases split h s val val2).2 = .ok o → ∀ (a : Nat) (f : List Rat → List Rat), a < h.length →
+      ((ctorTimeH srcAliases split h s val val2).1.write a f).readVal o.p1 o.p2
+        = (ctorTimeH srcAliases split h s val val2).1.readVal o.p1 o.p2) := by
+  rw [no_aliasing_constructor]
+  refine ⟨fun i hi => prefix_getElem? (ctorTimeH_prefix split h s val val2) i hi, ?_⟩
+  intro o ho a f ha
+  obtain ⟨h1, h2⟩ := ctorTimeH_fresh split h s val val2 o ho
+  exact readVal_write_fresh _ h.length a ha f o.p1 o.p2 h1 h2
+
+/-- the switch matters: with a `_to_jds` that hands canonical input on, `Time(jd1, val2=jd2)` of two caller arrays leaves both
+read-only, the epoch *is* those arrays, and a later change of the caller's fraction array changes the epoch -/
+theorem aliasing_ctor_shares :
+    let h : Heap := [⟨[4916001 / 2], true⟩, ⟨[1 / 4], true⟩]
+    let r := ctorTimeH true splitMidnight h .utc (.ref 0) (some (.ref 1))
+    r.1 = [⟨[4916001 / 2], false⟩, ⟨[1 / 4], false⟩] ∧ r.2 = .ok ⟨.time, .utc, .ref 0, .ref 1⟩ ∧
+    r.1.readVal (.ref 0) (.ref 1) = some (.array [⟨4916001 / 2, 1 / 4⟩]) ∧
+    (r.1.write 1 (fun _ => [1 / 2])).readVal (.ref 0) (.ref 1) = some (.array [⟨4916001 / 2, 1 / 2⟩]) ∧
+    (ctorTimeH false splitMidnight h .utc (.ref 0) (some (.ref 1))).1
+      = h ++ [⟨[4916001 / 2], false⟩, ⟨[1 / 4], false⟩] := by
+  decide +kernel
+
+/-- the per-element splits of the heap model are the source's `TimeJD._to_jds` / `TimeMJD._to_jds` (regenerated) -/
+theorem source_epoch_split (v v2 : Rat) :
+    Midgard.Generated.SrcTime.jdToJdsSrc v v2 = ((splitMidnight v v2).jd1, (splitMidnight v v2).jd2) ∧
+    Midgard.Generated.SrcTime.mjdToJdsSrc v v2 (4800001 / 2) = ((splitMjd v v2).jd1, (splitMjd v v2).jd2) := by
+  have h5 : (0.5 : Rat) = 1 / 2 := by norm_num
+  constructor <;>
+    simp only [Midgard.Generated.SrcTime.jdToJdsSrc, Midgard.Generated.SrcTime.mjdToJdsSrc, splitMidnight, splitMjd,
+      Midgard.Generated.SrcTime.HasFloor.floor, h5]
+
 /-! ### "to better than 1 ns for durations up to decades": the rounding-error budget
 
 `Proofs/TimeFloat.lean`: `Rounding` = any rounding function with relative error ≤ `u` per operation that returns multiples of
@@ -489,3 +533,7 @@ end Midgard.Props.C03
 #print axioms Midgard.Props.C03.one_op_error
 #print axioms Midgard.Props.C03.laws_rounded
 #print axioms Midgard.Props.C03.error_budget
+#print axioms Midgard.Props.C03.no_aliasing_constructor
+#print axioms Midgard.Props.C03.epoch_ctor_pure
+#print axioms Midgard.Props.C03.aliasing_ctor_shares
+#print axioms Midgard.Props.C03.source_epoch_split
